@@ -21,7 +21,9 @@ LEAVES = ["str", "int", "num", "bool", "str:date-time", "str:date", "str:uuid", 
           # without items (any items: belongs to the keyword-less-schema class)
           "enum_untyped", "bool_enum", "type_list_str_int", "array_no_items",
           # references to schemas whose declared NAME class-name derivation rewrites (acronym run, snake_case)
-          "ref_obj_rw", "ref_enum_rw", "ref_alias_rw"]
+          "ref_obj_rw", "ref_enum_rw", "ref_alias_rw",
+          # integer enums WITHOUT a type keyword, inline and as a referenced schema (the value kind has to come from the values)
+          "enum_untyped_int", "ref_enum_untyped_int"]
 WRAPPERS = ["array", "map", "nullable", "inline", "nullable31"]   # nullable31: the OpenAPI 3.1 spellings (type arrays / anyOf null)
 
 
@@ -93,6 +95,11 @@ def leaf_node(leaf: str) -> tuple[dict, dict]:
         return ref("Colour"), {"kind": "ref_enum", "target": "Colour"}
     if leaf == "ref_alias_dt":
         return ref("Timestamp"), {"kind": "ref_alias", "target": "Timestamp"}
+    if leaf == "enum_untyped_int":
+        vals = [0, 1, 10]
+        return {"enum": vals}, {"kind": "enum_inline", "values": vals, "untyped_int": True}
+    if leaf == "ref_enum_untyped_int":
+        return ref("UntypedLevel"), {"kind": "ref_enum", "target": "UntypedLevel"}
     if leaf == "ref_obj_rw":
         return ref("HTTPLeaf"), {"kind": "ref", "target": "HTTPLeaf"}
     if leaf == "ref_enum_rw":
@@ -161,6 +168,7 @@ def document(shapes: list[tuple[int, tuple[str, ...]]]) -> Doc:
         "Other": {"type": "object", "properties": {"other_key": {"type": "integer"}}, "required": ["other_key"]},
         "Third": {"type": "object", "properties": {"third_key": {"type": "boolean"}}, "required": ["third_key"]},
         "Choice": {"oneOf": [ref("Leaf"), ref("Other")]},
+        "UntypedLevel": {"enum": [1, 2, 3]},
         "HTTPLeaf": {"type": "object", "properties": {"label": {"type": "string"}, "count": {"type": "integer"}}, "required": ["label"]},
         "colour_code": {"type": "string", "enum": ["red", "dark-blue"]},
         "time_stamp": {"type": "string", "format": "date-time"},
@@ -169,6 +177,7 @@ def document(shapes: list[tuple[int, tuple[str, ...]]]) -> Doc:
         "HTTPLeaf": {"kind": "object", "parents": [], "props": {"label": {"kind": "string", "format": None, "required": True},
                                                                 "count": {"kind": "integer", "format": None, "required": False}}},
         "colour_code": {"kind": "enum", "values": ["red", "dark-blue"]},
+        "UntypedLevel": {"kind": "enum", "values": [1, 2, 3]},
         "time_stamp": {"kind": "prim_alias", "prim": {"kind": "string", "format": "date-time"}},
         "Leaf": {"kind": "object", "parents": [], "props": {"label": {"kind": "string", "format": None, "required": True},
                                                             "count": {"kind": "integer", "format": None, "required": False}}},
